@@ -110,9 +110,15 @@ def r05_2_labels(chk):
                     nontrivial=False)
     # label transformation itself
     ainit = model.Attribute.lookup("__init__")
-    s = norm(ainit.node)
-    chk.require("label.strip('_').upper().replace('_', '-')" in s, "R05.2", "label-transformation",
-                "Attribute no longer derives the RP66 label as strip('_').upper().replace('_','-')", ainit.where)
+    from ..terms import SELF as _S, K as _K, is_call as _ic, pp as _pp
+    asum = chk.summary(ainit)
+    lab = ("param", "label")
+    want = ("call", ("attr", ("call", ("attr", ("call", ("attr", lab, "strip"), (_K("_"),), ()), "upper"), (), ()),
+                     "replace"), (_K("_"), _K("-")), ())
+    sts = [e for e in asum.stores("_label") if e.base == _S]
+    chk.require(bool(sts) and all(e.value == want for e in sts), "R05.2", "label-transformation",
+                f"Attribute derives the RP66 label as `{[_pp(e.value)[:60] for e in sts]}`, not as "
+                f"label.strip('_').upper().replace('_', '-')", ainit.where)
     chk.floor("set classes", len(model.set_classes), 22)
     for sc in sorted(model.set_classes, key=lambda c: c.name):
         st = try_const(sc.class_assigns.get("set_type")) if "set_type" in sc.class_assigns else None
